@@ -13,13 +13,14 @@ from __future__ import annotations
 import concurrent.futures as cf
 import json
 import os
+import re
 import shutil
 import subprocess
 import sys
 
 from .. import coqio as C
 from .. import impl_c14_inject as J
-from ..core import NPROC, Check
+from ..core import NPROC, Check, coqc_file, split_evals
 
 THEOREMS = {n: "Props.C14" for n in [
     "C14_atomic", "C14_atomic_py", "C14_atomic_prefix", "C14_error_reports_and_preserves",
@@ -129,7 +130,8 @@ class Oracle:
         now = obs["after"]["files"].get(dst)
         out = obs["out"]
         died = out[0] == "died"
-        fails = [e["sc"] for e in obs["events"] if e["res"] == "fail"]
+        # OSErrors injected by the plan (a failure nobody injected is the code's own doing)
+        fails = [e["sc"] for e, d in zip(obs["events"], obs["plan"]) if e["res"] == "fail" and d[0] == "fail"]
         where = describe(obs)
         learner = cfg.get("via") == "learner"
         # destination: complete previous or complete new version, loadable
@@ -224,6 +226,29 @@ def run_workers(jobs, base, log):
             for j, o in zip(sh, json.loads(p.stdout)):
                 out[j["i"]] = o
     return out
+
+
+def coq_cases(chk: Check, cases, shard=150, timeout=900):
+    """Like Check.coq_cases (sharded `mismatches check cases` + `count_true observed_atomic cases` by vm_compute
+    inside Coq) with an answer parser that tolerates the line breaks Coq inserts in long lists."""
+    files = []
+    for k in range(0, len(cases), shard):
+        f = chk.work / f"cases_{k // shard}.v"
+        f.write_text("\n".join([PREAMBLE, "Definition cases : list case := [", ";\n".join(cases[k:k + shard]), "].",
+                                "Eval vm_compute in (mismatches check cases).",
+                                "Eval vm_compute in (count_true observed_atomic cases)."]) + "\n")
+        files.append((k, f))
+    mism, legal, errors = [], 0, []
+    with cf.ThreadPoolExecutor(max_workers=NPROC) as ex:
+        for (k, f), (rc, out, _) in zip(files, ex.map(lambda kf: coqc_file(kf[1], timeout), files)):
+            parts = split_evals(out) if rc == 0 else []
+            if rc != 0 or len(parts) != 2 or "list (nat * nat)" not in parts[0]:
+                errors.append(f"{f.name}: rc={rc}: {out[-800:]}")
+                continue
+            mism += [(k + int(a), int(b)) for a, b in re.findall(r"\(\s*(\d+)\s*,\s*(\d+)\s*\)", parts[0])]
+            legal += C.parse_nat(parts[1])
+    chk.checker_cmds.append(f"coqc cases_*.v ({len(files)} shards, comparison by vm_compute inside Coq)")
+    return sorted(mism), legal, errors
 
 
 def cfg_key(cfg):
@@ -360,7 +385,8 @@ def check_load_absent(chk: Check, scratch):
         pts, _ = donor.ask(1)
         donor.tell(pts[0], donor.function(pts[0]))
         full = os.path.join(scratch, "donor.pickle")
-        donor.save(full)
+        with open(full, "wb") as f:
+            f.write(J.encode(donor._get_data(), True))
         l = mk()
         before = learner_state(l)
         l.load(full)
@@ -399,6 +425,14 @@ def run(chk: Check) -> int:
     def on_obs(o):
         observations.append(o)
 
+    # minimised failing cases of earlier runs are replayed first
+    for f in sorted((chk.work.parents[1] / "corpus" / "C14").glob("*.json")):
+        d = json.loads(f.read_text())
+        if any(x[0] == "die" for x in d["plan"]):
+            die_jobs.append((d["cfg"], d["plan"]))
+        else:
+            on_obs(J.run_case(d["cfg"], d["plan"], os.path.join(base, "inproc")))
+    ncorpus = len(observations) + len(die_jobs)
     cfgs = configs(chk.quick)
     refs = {}
     for cfg in cfgs:
@@ -425,6 +459,7 @@ def run(chk: Check) -> int:
     chk.log(f"{len(observations)} runs of utils.save + {len(learner_obs)} of Learner1D.save observed")
 
     # oracle + statistics
+    found = []
     for o in observations + learner_obs:
         plan = o["plan"]
         for e, d in zip(o["events"], plan):
@@ -437,10 +472,15 @@ def run(chk: Check) -> int:
         hist_dst[k] = hist_dst.get(k, 0) + 1
         chk.note_case((cfg_key(o["cfg"]), plan), any(d[0] != "ok" for d in plan))
         if o["out"][0] == "other":
-            chk.fail("C14:unexpected-exception", f"{describe(o)}: {o['out'][1]}",
-                     {"kind": "save", "cfg": o["cfg"], "plan": plan})
+            found.append(("C14:unexpected-exception", f"{describe(o)}: {o['out'][1]}",
+                          {"kind": "save", "cfg": o["cfg"], "plan": plan}))
         for clause, msg in orc.check(o)[:1]:
-            chk.fail(f"C14:{clause}", msg, {"kind": "save", "cfg": o["cfg"], "plan": plan})
+            found.append((f"C14:{clause}", msg, {"kind": "save", "cfg": o["cfg"], "plan": plan}))
+    # one failing input per kind of failure first (the replay file keeps the first five)
+    seen = set()
+    firsts = [f for f in found if not (f[0] in seen or seen.add(f[0]))]
+    for f in firsts + [f for f in found if f not in firsts][:40]:
+        chk.fail(*f)
     for o in observations[:400:97]:
         chk.sample({"cfg": o["cfg"], "plan": o["plan"], "outcome": o["out"][:2],
                     "calls": [f"{e['sc']}:{e['res']}" + (f":{e['n']}B" if e["sc"] == "write" else "") for e in o["events"]]})
@@ -449,8 +489,7 @@ def run(chk: Check) -> int:
     cases = [case_term(o) for o in observations]
     # positive control: a deliberately falsified observation must be reported by Coq
     fake = dict(observations[0], out=["returned", observations[0]["out"] != ["returned", True]])
-    mism, atomic_ok, errors = chk.coq_cases("cases", PREAMBLE, "case", cases + [case_term(fake)], "check",
-                                            "observed_atomic", shard=150)
+    mism, atomic_ok, errors = coq_cases(chk, cases + [case_term(fake)], shard=150)
     if not errors:
         if not any(m[0] == len(cases) for m in mism):
             chk.broke("machinery", "the falsified control case was not reported by the Coq comparison", str(mism[-3:]))
@@ -475,10 +514,9 @@ def run(chk: Check) -> int:
     for cfg in cfgs:
         ref = refs[cfg_key(cfg)]
         ren, chunks = abstract(ref)
-        lens = lens_for(len(chunks[0]), chk.quick)
         fs0 = C.app("mkfs", C.lst(C.pair(cstr(ren(p)), cbytes(bytes.fromhex(h))) for p, h in sorted(ref["before"]["files"].items())),
                     C.lst(cstr(d) for d in ref["before"]["dirs"]))
-        exprs.append(f"plans 9 {C.lst(C.nat(n) for n in lens)} {cstr(ref['dst'])} {cstr('PID')} "
+        exprs.append(f"plans 9 {C.bool_(not chk.quick)} {cstr(ref['dst'])} {cstr('PID')} "
                      f"{C.lst(cbytes(c) for c in chunks)} {fs0} []")
         keys.append(cfg_key(cfg))
     ans = chk.coq_eval("plancount", PREAMBLE, exprs)
@@ -503,7 +541,7 @@ def run(chk: Check) -> int:
                            + ("" if chk.quick else ", absolute path") + "} x partial-write lengths "
                            + ("{0,1,half,all-1}" if chk.quick else "{0,1,half,all-1,all,>all}")
                            + ("" if chk.quick else "; deaths by os._exit(9) and by SIGKILL; stale temp file variants; 5 OSError subclasses"),
-        "configurations": len(cfgs), "runs_compared_in_coq": len(cases), "mismatches": len(mism),
+        "configurations": len(cfgs), "corpus_cases": ncorpus, "runs_compared_in_coq": len(cases), "mismatches": len(mism),
         "observed_states_satisfying_C14_atomic_in_coq": atomic_ok,
         "configs_whose_plan_count_equals_model_tree": f"{tree_ok}/{len(cfgs)}",
         "death_runs": sum(1 for o in observations if o["out"][0] == "died"),
